@@ -64,7 +64,7 @@ func safely(f func()) (panicked interface{}) {
 
 // c16: dynamic half of C16 — the parsed tree is bit-for-bit what it was after any mix of the four API paths.
 func runC16(res *Result, tier string, seed int64, replay string) {
-	res.Rule = "documents = all testdata fixtures + explicit documents (head-reading; invalid attribute after valid ones; children in orders a renderer might normalise; every component × every attribute with white space around the value / upper case) + seeded grammar documents (rich generator: head attributes, classes, fonts, inline styles, all leaf kinds); each is parsed once (RenderWithAST), deep-snapshotted (values, slice len/cap, backing-array identity, spare capacity), then rendered again through RenderFromAST, NewFromAST+RenderComponentString, RenderFromAST(debug) and twice through Render(WithCache) and re-snapshotted; non-trivial = document with at least one section; distinct by source text"
+	res.Rule = "documents = all testdata fixtures + explicit documents (head-reading; invalid attribute after valid ones; children in orders a renderer might normalise; author HTML in every content slot with attribute values that need escaping or re-quoting; every component × every attribute with white space around the value / upper case) + seeded grammar documents (rich generator: head attributes, classes, fonts, inline styles, all leaf kinds); each is parsed once (RenderWithAST), deep-snapshotted (values, slice len/cap, backing-array identity, spare capacity), then rendered again through RenderFromAST, NewFromAST+RenderComponentString, RenderFromAST(debug) and twice through Render(WithCache) and re-snapshotted; non-trivial = document with at least one section; distinct by source text"
 	var docs []struct{ name, src string }
 	for _, f := range loadFixtures() {
 		docs = append(docs, struct{ name, src string }{"fixture:" + f.Name, f.MJML})
@@ -86,6 +86,20 @@ func runC16(res *Result, tier string, seed int64, replay string) {
 		`<mj-section><mj-group><mj-column width="70%"><mj-text>wide</mj-text></mj-column><mj-column width="30%"><mj-text>narrow</mj-text></mj-column></mj-group></mj-section>` +
 		`<mj-hero><mj-button href="u">B</mj-button><mj-text>after button</mj-text></mj-hero></mj-body>` +
 		`<mj-head><mj-title>late head</mj-title><mj-attributes><mj-text color="#111111"/><mj-all padding="1px"/></mj-attributes></mj-head></mjml>`})
+	// author HTML in every content slot with attribute values a serialiser has to escape or re-quote (a double quote inside
+	// single quotes or written &quot;, an apostrophe, an ampersand, angle brackets, a line break): the escaped copy must be the
+	// renderer's own, never the value in the tree
+	{
+		inner := `<span title='the "big" one' style="font-family:&quot;Open Sans&quot;, sans-serif" data-q="it's">q <a href="http://x/?a=1&amp;b=2" title="&lt;t&gt;">l</a></span><b class='k "k2"'
+ id="multi
+line">m</b>`
+		docs = append(docs, struct{ name, src string }{"explicit:quoted-attribute-values", `<mjml><mj-head><mj-style inline="inline">.k { color: blue; }</mj-style><mj-title>T</mj-title></mj-head><mj-body><mj-section><mj-column>` +
+			`<mj-text>` + inner + `</mj-text><mj-button href="u">` + inner + `</mj-button><mj-table><tr><td>` + inner + `</td></tr></mj-table>` +
+			`<mj-navbar><mj-navbar-link href="/a">` + inner + `</mj-navbar-link></mj-navbar>` +
+			`<mj-social><mj-social-element name="facebook" href="h">` + inner + `</mj-social-element></mj-social>` +
+			`<mj-accordion><mj-accordion-element><mj-accordion-title>` + inner + `</mj-accordion-title><mj-accordion-text>` + inner + `</mj-accordion-text></mj-accordion-element></mj-accordion>` +
+			`<mj-raw>` + inner + `</mj-raw></mj-column></mj-section><mj-hero><mj-text>` + inner + `</mj-text><mj-button>` + inner + `</mj-button></mj-hero></mj-body></mjml>`})
+	}
 	// every component with every one of its attributes written with white space around the value, upper-case units and a
 	// three-digit colour: values a renderer may want to tidy up — in its own copy, not in the tree
 	for _, tag := range bodyTags {
